@@ -142,7 +142,8 @@ def c_pwm_direct(clock_domain="sys"):
     h.cover("cover.frame(0/3)", z3.And(F["wrap"], G["held"], V(d.period) == K(3, 32), V(d.width) == K(0, 32), G["total"] == K(0, W)), depth=8)
     h.cover("cover.reprogrammed", z3.And(F["wrap"], z3.Not(G["held"]), F["ph"] == K(3, 32), G["total"] == K(2, W)), depth=8)
     # period 0: "high for min(width, 0) = 0 cycles" - the code keeps the counter at 0 and drives the output high in every cycle (width > 0)
-    h.finding("finding.period0.output-low", z3.Implies(z3.And(en, V(d.period) == K(0, 32)), h.n(d.pwm) == ZERO),
+    if clock_domain == "sys":
+      h.finding("finding.period0.output-low", z3.Implies(z3.And(en, V(d.period) == K(0, 32)), h.n(d.pwm) == ZERO),
               "PWM with period 0 (the reset default) and enable: the simulated design holds the frame position at 0 and drives the output high in "
               "every cycle as soon as width > 0 (a 100 % duty cycle for a zero-length period; the emitted Verilog compares against period-1 = 2^32-1 "
               "instead and produces a 2^32-cycle frame)")
@@ -186,7 +187,6 @@ def c_pwm_two_periods(po=None, pn=None):
 def _bus_inputs(d): return [d.bus.adr, d.bus.we, d.bus.re, d.bus.dat_w]
 def _wr(h, d, csr):
     """a CSR bus write to the (single-word) register `csr` of the bank at page 0"""
-    names = [c.name for c in d.bank.simple_csrs]
     sc = [c for c in csr.simple_csrs]; assert len(sc) == 1
     i = d.bank.simple_csrs.index(sc[0])
     adr = h.v(d.bus.adr)
@@ -268,7 +268,11 @@ def c_multichannel(n=2, full=False):
     counter_clauses(h, "ch0.", F, c0.counter, en[0], rst)
     padn = h.n(d.pads)
     for k, c in enumerate(ch):
-        channel_clauses(h, f"ch{k}.", F, en[k], V(c.width), z3.Extract(k, k, padn), track_period=(full and k == 0), reprog=(full and k == 0))
+        if k in (0, n - 1):       # per-frame ghosts on the first and the last channel (solver time grows quickly with the number of 33-bit ghost sets)
+            channel_clauses(h, f"ch{k}.", F, en[k], V(c.width), z3.Extract(k, k, padn), track_period=(full and k == 0), reprog=(full and k == 0))
+        else:
+            h.ensure(f"ch{k}.ens.output", b(z3.Extract(k, k, padn)) == z3.And(en[k], z3.ULT(F["ph"], V(c.width))))
+            h.ensure(f"ch{k}.ens.idle.output", z3.Implies(z3.Not(en[k]), z3.Extract(k, k, padn) == ZERO))
         h.ensure(f"ch{k}.ens.csr.wiring", z3.And(V(c.enable) == V(c._enable.storage), V(c.width) == V(c._width.storage)))
         _storage_clauses(h, d, f"ch{k}.ens.csr.enable", c._enable, 1); _storage_clauses(h, d, f"ch{k}.ens.csr.width", c._width, 32)
     h.ensure("ens.csr.period.wiring", period == V(c0._period.storage)); _storage_clauses(h, d, "ens.csr.period", c0._period, 32)
@@ -283,8 +287,9 @@ def c_multichannel(n=2, full=False):
     first = t0_ghost(h)
     h.hint("t0", z3.Implies(first, z3.And(V(d.pads) == K(0, n), C == K(0, 32), *[V(c._enable.storage) == ZERO for c in ch])))
     h.ensure("ens.reset-state", z3.Implies(first, z3.And(V(d.pads) == K(0, n), C == K(0, 32), *[z3.Not(e) for e in en])))
-    both = z3.And(F["wrap"], F["ph"] == K(3, 32), period == K(4, 32), V(ch[0].width) == K(1, 32), V(ch[1].width) == K(3, 32))
-    h.cover("cover.two-duties", z3.And(both, h.ghosts["ch0.acc"][0] + z(z3.Extract(0, 0, padn)) == K(1, W), h.ghosts["ch1.acc"][0] + z(z3.Extract(1, 1, padn)) == K(3, W)), depth=14)
+    m = n - 1
+    both = z3.And(F["wrap"], F["ph"] == K(3, 32), period == K(4, 32), V(ch[0].width) == K(1, 32), V(ch[m].width) == K(3, 32))
+    h.cover("cover.two-duties", z3.And(both, h.ghosts["ch0.acc"][0] + z(z3.Extract(0, 0, padn)) == K(1, W), h.ghosts[f"ch{m}.acc"][0] + z(z3.Extract(m, m, padn)) == K(3, W)), depth=14)
     h.bmc_depth = 12; h.timeout_ms = max(h.timeout_ms, 180000)
     h.functions = ["litex.soc.cores.pwm.MultiChannelPWM.__init__", "litex.soc.cores.pwm.PWM.__init__ (external counter)", "litex.soc.cores.pwm.PWM.add_enable_width_csr",
                    "litex.soc.cores.pwm.PWM.add_period_csr", "litex.soc.interconnect.csr_bus.CSRBank (flattened)"]
@@ -324,7 +329,8 @@ def c_watchdog_opts(width=8, delay=3, with_halt=True, stale=False):
         if delay >= 1:
             h.ensure("ens.reset.delay", b(V(d.rst)) == uge(c, delay))                               # SoC reset exactly after reset_delay consecutive time-out cycles
             h.ensure("ens.reset.only-on-timeout", z3.Implies(b(V(d.rst)), b(pw)))
-            h.cover("cover.reset", b(V(d.rst)), depth=delay + 8)
+            if delay <= 16: h.cover("cover.reset", b(V(d.rst)), depth=delay + 8)
+            else: h.cover("cover.counting", c == K(3, GW), depth=10)      # the reset itself is `delay` cycles away from reset: beyond a BMC cover; ens.reset.delay covers the rest
         else:
             h.finding("finding.reset_delay0.reset-only-on-timeout", z3.Implies(b(V(d.rst)), wait),
                       "Watchdog(crg_rst=..., reset_delay=0) (the constructor default): WaitTimer(0).done is the constant 1, so crg_rst is asserted in every cycle from "
